@@ -54,6 +54,10 @@ def conditions(tier):
             n = "l2_F_" + sfx(cs, ps)
             q.append(("two_cuts_single_contig_" + sfx(cs, ps), _g(n, [("S1", "F")], ((2,), [(0, 0, 0), (1, 0, 1), (2, 0, 2)]), cs, ps), n, 900,
                       f"input of ONE contig (strand {cs}) cut twice: the middle piece lies wholly inside the contig (minimum pieces of exactly two texels included), three painted Pretext scaffolds, piece strands {ps}"))
+    n = "l2_FGF_bothcut"
+    q.append(("two_cuts_FGF_both_contigs_cut_c_bppp", _g(n, S_FGF, ((2,), [(0, 0, 2), (1, 0, 1), (2, 0, 0)]), False, (1, 1, 1),
+                                                          extra_pre=("c0_0 < l0_0", "c0_1 > l0_0 + g0_1")), n, 900,
+              "input F G F (forward), TWO cuts, one inside each contig (the overhang-resolution loop runs more than one round), three painted Pretext scaffolds reversed, piece strands + + +; other cut regions and strands: thorough tier"))
     src_q = HEAD + "".join(x[1] for x in q)
     for (n, _, fn, to, bound) in q:
         out.append(Cond(n, src_q, fn, to, bound, replay="replay_model", encodes=ENC))
